@@ -482,6 +482,12 @@ func RawValues(s *Spec) []any {
 			for _, v := range vals {
 				out = append(out, map[any]any{gk[0]: v})
 			}
+			// distinct raw keys that denote one key (whether such a map is to be accepted is not settled by the
+			// properties; what is returned for it must still meet the declared bounds, and must not depend on the
+			// iteration order)
+			v2 := gv[len(gv)-1]
+			out = append(out, map[any]any{"1": gv[0], int64(1): v2}, map[any]any{"a": gv[0], MyStr("a"): v2},
+				map[any]any{"1": gv[0], int64(1): v2, int64(2): gv[0]}, map[any]any{"a": gv[0], MyStr("a"): v2, "b": gv[0]})
 			if ks, ok := gk[0].(string); ok {
 				out = append(out, map[string]any{ks: gv[0]})
 			}
